@@ -535,6 +535,116 @@ Section Cmds.
     - revert s1 s2 H. induction (dedup ks) as [|k l IH]; intros s1 s2 H; simpl; auto. apply IH. now apply R_kv_del.
   Qed.
 
+  (* ---------- SET with options, SETIFEQ, DELIFEQ, LTRIM, LSET, ZREMRANGEBYRANK ---------- *)
+  Lemma P_setopt k v ttl nx xx : P (CSetOpt k v ttl nx xx).
+  Proof.
+    intros s1 s2 H. cbn [step]. unfold do_setopt, kv_prepare.
+    destruct (kv_cases _ _ k H) as (h1 & h2 & ov1 & ov2 & x1 & x2 & E1 & E2 & C & _).
+    rewrite E1, E2, <- C. pose proof (R_kv_reset s1 s2 k v ttl H) as X.
+    destruct (kv_cur ov1 x1); [destruct nx | destruct xx]; try (simpl; auto; fail);
+      destruct (kv_reset Compact s1 ts k v ttl), (kv_reset Compact s2 ts k v ttl); try contradiction; simpl; auto.
+  Qed.
+  Lemma P_setifeq k old v ttl : P (CSetIfEq k old v ttl).
+  Proof.
+    intros s1 s2 H. cbn [step]. unfold do_setifeq, kv_prepare.
+    destruct (kv_cases _ _ k H) as (h1 & h2 & ov1 & ov2 & x1 & x2 & E1 & E2 & C & _).
+    rewrite E1, E2, <- C. pose proof (R_kv_reset s1 s2 k v ttl H) as X.
+    destruct (eq_cur (kv_cur ov1 x1) old); [|simpl; auto].
+    destruct (kv_reset Compact s1 ts k v ttl), (kv_reset Compact s2 ts k v ttl); try contradiction; simpl; auto.
+  Qed.
+  Lemma R_kv_del_dead s1 s2 k : RR s1 s2 -> t0 = TK -> k = k0 -> kvdead T (kv_get s1 k) -> kvdead T (kv_get s2 k) ->
+    RR (kv_del s1 k) s2 /\ RR s1 (kv_del s2 k).
+  Proof.
+    intros [A B C D E F Z1 Z2 G] Ht Hk D1 D2. split; constructor; auto; intros k'.
+    - rewrite kv_get_del. destruct (bytes_eqb k' k) eqn:X; [|apply A].
+      apply bytes_eqb_eq in X. subst k'. right. simpl. repeat split; auto.
+    - rewrite kv_get_del. destruct (bytes_eqb k' k) eqn:X; [|apply A].
+      apply bytes_eqb_eq in X. subst k'. right. simpl. repeat split; auto.
+  Qed.
+  Lemma del1_reply s k : forall h ov x, kv_raw Compact s ts k = (h, ov, x) -> kv_cur ov x = None ->
+    do_del Compact s ts [k] = (kv_del s k, RInt 0).
+  Proof.
+    intros h ov x E K. unfold do_del. cbn [dedup filter fold_left]. rewrite E.
+    destruct ov, x; simpl in *; try discriminate; reflexivity.
+  Qed.
+  Lemma P_delifeq k old : P (CDelIfEq k old).
+  Proof.
+    intros s1 s2 H. cbn [step]. unfold do_delifeq.
+    destruct (kv_cases _ _ k H) as (h1 & h2 & ov1 & ov2 & x1 & x2 & E1 & E2 & C & X & L & D).
+    rewrite E1, E2. destruct (kv_cur ov1 x1) as [b|] eqn:K.
+    - destruct L as (Eh & -> & -> & ->); [congruence|].
+      destruct (negb (eq_cur ov2 old) && negb false); [simpl; auto|]. apply (P_del [k]); auto.
+    - (* dead or absent on both sides: the reply is 0 whatever each side does *)
+      assert (K2 : kv_cur ov2 x2 = None) by congruence.
+      pose proof (del1_reply s1 k _ _ _ E1 K) as D1. pose proof (del1_reply s2 k _ _ _ E2 K2) as D2.
+      destruct (R_kv _ _ _ _ _ _ H k) as [S | (Ht & Hk & Dd1 & Dd2)].
+      + (* same stored entry up to the version: same decision *)
+        unfold kv_raw in E1, E2. unfold kv_same in S.
+        destruct (kv_get s1 k) as [[g1 v1]|], (kv_get s2 k) as [[g2 v2]|]; try contradiction.
+        * destruct S as [Eg ->]. inversion E1; inversion E2; subst h1 h2 ov1 ov2 x1 x2. rewrite (expired_exp g1 g2 ts Eg).
+          destruct (negb (eq_cur (Some v2) old) && negb (is_expired Compact g2 ts)); [simpl; auto|].
+          rewrite D1, D2. cbn [fst snd]. split; auto. now apply R_kv_del.
+        * inversion E1; inversion E2; subst h1 h2 ov1 ov2 x1 x2.
+          destruct (negb (eq_cur None old) && negb false); [simpl; auto|].
+          rewrite D1, D2. cbn [fst snd]. split; auto. now apply R_kv_del.
+      + destruct (R_kv_del_dead s1 s2 k H Ht Hk Dd1 Dd2) as [Ra Rb].
+        destruct (negb (eq_cur ov1 old) && negb x1), (negb (eq_cur ov2 old) && negb x2);
+          try rewrite D1; try rewrite D2; cbn [fst snd]; split; auto. now apply R_kv_del.
+  Qed.
+
+  Lemma R_fold_el_del_z s1 s2 t k v (l : list Z) : RR s1 s2 -> (t, k, v) <> (t0, k0, g) ->
+    RR (fold_left (fun st i => el_del st t k v (SI i)) l s1) (fold_left (fun st i => el_del st t k v (SI i)) l s2).
+  Proof. intros H Hn. apply (R_fold_el_del T t0 k0 g s1 s2 t k v (fun i : Z => SI i)); auto. Qed.
+
+  Lemma P_ltrim k a b : P (CLTrim k a b).
+  Proof.
+    intros s1 s2 H. cbn [step]. unfold do_ltrim.
+    destruct (exist_cases _ _ TL k H) as [(h & ua & ub & E1 & E2 & G1 & G2 & G3) | [N1 N2]].
+    - rewrite E1, E2. cbn [not_exist_or_expired orb]. destruct (list_meta_of (Some (ua, ub))) as [[hd tl] llen]. cbv zeta.
+      match goal with |- context [if ?c then _ else _] => destruct c end.
+      + cbn [fst snd]. split; auto. destruct (llen =? 0); auto. now apply R_meta_del.
+      + match goal with |- context [list_set_meta (fold_left ?f ?l2 (fold_left ?f ?l1 s1)) k h ?x ?y] =>
+          pose proof (R_list_set_meta (fold_left f l2 (fold_left f l1 s1)) (fold_left f l2 (fold_left f l1 s2)) k h x y
+                        (R_fold_el_del_z _ _ TL k (h_ver h) l2 (R_fold_el_del_z _ _ TL k (h_ver h) l1 H G1) G1) G3) as Y;
+          destruct (list_set_meta (fold_left f l2 (fold_left f l1 s1)) k h x y),
+                   (list_set_meta (fold_left f l2 (fold_left f l1 s2)) k h x y); try contradiction; simpl; auto
+        end.
+    - destruct (noe_header_true _ _ _ N1) as (h1 & u1 & x1 & E1 & X1).
+      destruct (noe_header_true _ _ _ N2) as (h2 & u2 & x2 & E2 & X2).
+      rewrite E1, E2, X1, X2. simpl; auto.
+  Qed.
+  Lemma P_lset k i v : P (CLSet k i v).
+  Proof.
+    intros s1 s2 H. cbn [step]. unfold do_lset.
+    destruct (exist_cases _ _ TL k H) as [(h & ua & ub & E1 & E2 & G1 & G2 & G3) | [N1 N2]].
+    - rewrite E1, E2. cbn [not_exist_or_expired orb]. destruct (list_meta_of (Some (ua, ub))) as [[hd tl] size]. cbv zeta.
+      destruct (size =? 0); [simpl; auto|].
+      match goal with |- context [if ?c then _ else _] => destruct c end; [simpl; auto|].
+      pose proof (R_list_set_meta s1 s2 k h hd tl H G3) as Y.
+      destruct (list_set_meta s1 k h hd tl), (list_set_meta s2 k h hd tl); try contradiction; simpl; auto.
+      split; auto. apply R_el_put; auto.
+    - destruct (noe_header_true _ _ _ N1) as (h1 & u1 & x1 & E1 & X1).
+      destruct (noe_header_true _ _ _ N2) as (h2 & u2 & x2 & E2 & X2).
+      rewrite E1, E2, X1, X2. simpl; auto.
+  Qed.
+  Lemma P_zremrangebyrank k a b : P (CZRemRangeByRank k a b).
+  Proof.
+    intros s1 s2 H. cbn [step]. unfold do_zremrangebyrank.
+    destruct (exist_cases _ _ TZ k H) as [(h & ua & ub & E1 & E2 & G1 & G2 & G3) | [N1 N2]].
+    - rewrite E1, E2. cbv zeta. rewrite <- (R_elof _ _ _ _ _ _ H TZ k (h_ver h) G1).
+      destruct (size_of (Some (ua, ub)) =? 0); [simpl; auto|].
+      match goal with |- context [if ?c then _ else _] => destruct c end.
+      { cbn [not_exist_or_expired orb fst snd]. split; auto. now apply R_meta_del. }
+      match goal with |- context [if ?c then _ else _] => destruct c end; [simpl; auto|].
+      match goal with |- context [if ?c then _ else _] => destruct c end.
+      { cbn [fst snd]. split; auto. apply R_incr_size; auto. }
+      cbn [fst snd]. split; auto. apply R_incr_size; auto.
+      apply (R_fold_el_del T t0 k0 g s1 s2 TZ k (h_ver h) (fun m0 : bytes => SB m0)); auto.
+    - destruct (noe_header _ _ _ N1) as (h1 & u1 & x1 & E1 & X1 & [-> | [-> ->]]);
+      destruct (noe_header _ _ _ N2) as (h2 & u2 & x2 & E2 & X2 & [-> | [-> ->]]);
+      rewrite E1, E2; try destruct x1; try destruct x2; simpl; auto.
+  Qed.
+
   Theorem step_R c : P c.
   Proof.
     destruct c.
@@ -550,6 +660,7 @@ Section Cmds.
     - apply P_spop. - apply P_zadd. - apply P_zincrby.
     - intros s1 s2 H. cbn [step]. now apply P_coll_rem.
     - apply P_zremrangebyscore. - apply P_lpush. - apply P_lpop.
+    - apply P_setopt. - apply P_setifeq. - apply P_delifeq. - apply P_ltrim. - apply P_lset. - apply P_zremrangebyrank.
   Qed.
   Theorem step_R_state c : forall s1 s2, RR s1 s2 -> RR (fst (step Compact s1 ts c)) (fst (step Compact s2 ts c)).
   Proof. intros s1 s2 H. now apply step_R. Qed.
